@@ -506,10 +506,17 @@ class _HashFuncs(dict):
         return f
 
 
+_FP_CACHE = {}
+_FP_KEEP = []
+
+
 def fingerprint(t):
+    """Float value of *t* under a fixed pseudo-random interpretation (shared
+    cache: terms are kept alive so that ids stay unique)."""
     try:
         funcs = _HashFuncs(symx._PYF)
-        return float(symx.evalf(t, _HashEnv(), funcs))
+        _FP_KEEP.append(t)
+        return float(symx.evalf(t, _HashEnv(), funcs, cache=_FP_CACHE))
     except Exception:
         return None
 
@@ -523,24 +530,33 @@ def align_leaves(u, hyps, ref_terms, code_terms, names=None, label="leaf-argumen
     -- and substitute it.  Returns the rewritten reference terms.  Unmatched
     applications are left alone: the main obligation then fails or is
     inconclusive; nothing is assumed."""
-    ref_terms = list(ref_terms)
+    import time as _time
+    ref_terms = [z3.simplify(t) for t in ref_terms]
     code_apps = symx.apps_of(code_terms)
     have = {a.get_id() for a in code_apps}
+    pending = [r for r in symx.apps_of(ref_terms) if r.get_id() not in have]
+    if not pending:
+        return ref_terms
     fps = [(fingerprint(c), c) for c in code_apps]
+    by_decl = {}
+    for fc, c in fps:
+        by_decl.setdefault((c.decl().name(), c.num_args()), []).append((fc, c))
+    # hypotheses indexed by their free symbols: a lemma only sees the relevant ones
+    hyp_syms = [(h, set(symx.consts_of([h]))) for h in hyps]
     tried = set()
     for _round in range(12):
         ref_apps = [r for r in symx.apps_of(ref_terms) if r.get_id() not in have
                     and r.get_id() not in tried]
         frontier = [r for r in ref_apps
-                    if all(x.get_id() in have for x in symx.apps_of(r.children()))]
+                    if all(x.get_id() in have or x.get_id() in tried
+                           for x in symx.apps_of(r.children()))]
         if not frontier:
             break
         subs = []
         for r in frontier:
             tried.add(r.get_id())
             fr = fingerprint(r)
-            same = [(fc, c) for fc, c in fps
-                    if c.decl().eq(r.decl()) and c.num_args() == r.num_args()]
+            same = by_decl.get((r.decl().name(), r.num_args()), [])
             if fr is not None:
                 near = [c for fc, c in same if fc is not None
                         and abs(fc - fr) <= 1e-7 * max(1.0, abs(fr))]
@@ -548,10 +564,17 @@ def align_leaves(u, hyps, ref_terms, code_terms, names=None, label="leaf-argumen
                 near = [c for fc, c in same]
             for c in near[:3]:
                 eq = z3.And(*[r.arg(i) == c.arg(i) for i in range(r.num_args())])
-                ax = symx.axioms_for(list(hyps) + [eq])
                 u.r["obligations"] += 1
-                res, _m, _s = u.solve(symx.abstract_ufs(list(hyps) + ax + [z3.Not(eq)]),
-                                      timeout_ms=30000)
+                t0 = _time.time()
+                esyms = set(symx.consts_of([eq]))
+                rel = [h for h, hs in hyp_syms if hs & esyms]
+                ax = symx.axioms_from_apps(symx.apps_of(rel + [eq]))
+                sol = z3.Solver()
+                sol.set("timeout", 30000)
+                sol.add(*symx.abstract_ufs(rel + ax + [z3.Not(eq)]))
+                res = str(sol.check())
+                u.r["solver_s"] += _time.time() - t0
+                u.r["solver_checks"] += 1
                 if res == "unsat":
                     u.r["discharged"] += 1
                     subs.append((r, c))
